@@ -105,6 +105,8 @@ Definition reset_free (l : ledger) : ledger :=
 
 Fixpoint aset_mem (p : Z) (s : list (Z * devres)) : bool :=
   match s with [] => false | (q, _) :: t => (q =? p) || aset_mem p t end.
+Fixpoint lookup_aset (p : Z) (s : list (Z * devres)) : option devres :=
+  match s with [] => None | (q, d) :: t => if q =? p then Some d else lookup_aset p t end.
 Definition aset_remove (p : Z) (s : list (Z * devres)) : list (Z * devres) :=
   filter (fun e => negb (fst e =? p)) s.
 
@@ -446,6 +448,53 @@ Definition alloc_type (scored : bool) (ls : list ledger) (infos : list devinfo) 
     end
   else default_allocate t scored v per desired desired.
 
+(* ---------- Filter during a preemption dry-run: the victims' holdings count as free
+   (calcFreeWithPreemptible without required resources, nodeDevice.filter on that free) *)
+Definition calc_free (l : ledger) (pre : devres) : devres :=
+  let merged := dmapi (fun m v => match v with
+                  | Some v' => let rem := rsubnn (ores (dget (total l) m))
+                                                 (rsubnn (ores (dget (used l) m)) v') in
+                               if ris_zero rem then None else Some rem
+                  | None => None end) 0 pre in
+  if dis_empty merged then free l
+  else dzip (fun a b => match a with Some _ => a | None => b end) merged (free l).
+Definition filter_view_on (l : ledger) (fr : devres) (minors : list nat) : ledger :=
+  if dis_zero fr || match minors with [] => true | _ => false end then empty_ledger
+  else
+    let keep m := memn m minors in
+    let tot := dmapi (fun m f => match f with
+                                 | Some _ => if keep m then Some (ores (dget (total l) m)) else None
+                                 | None => None end) 0 fr in
+    let usd := dmapi (fun m f => match f with
+                                 | Some f' => if keep m
+                                              then let u := rsubnn (ores (dget (total l) m)) f' in
+                                                   if ris_zero u then None else Some u
+                                              else None
+                                 | None => None end) 0 fr in
+    reset_free (mkLedger tot [] usd []).
+(* appendAllocated over the victims' entries of the allocate set (RemovePod) *)
+Definition merge_res (a b : option res) : option res :=
+  match a, b with
+  | Some x, Some y => Some (radd x y) | Some x, None => Some x
+  | None, Some y => Some y | None, None => None
+  end.
+Definition preempt_of (l : ledger) (victims : list Z) : devres :=
+  fold_left (fun pre v => match lookup_aset v (aset l) with
+                          | Some d => if dis_empty d then pre else dzip merge_res pre d
+                          | None => pre end) victims [].
+Definition alloc_type_on (ls : list ledger) (infos : list devinfo) (t : nat)
+           (per : res) (count : Z) (shared : bool) (pre : devres) : option (list alloc) :=
+  let l := ledger_of ls t in
+  let v := filter_view_on l (calc_free l pre) (minors_of infos t) in
+  let desired := desired_count count in
+  if Nat.eqb t 0 && gpu_topo_ok infos && negb (shared && (1 <? count)) then
+    let c := mkCtx desired shared false per v (build_total infos 0) (real_used (used l) v) in
+    match root_alloc c (root_minors infos) (numa_scopes infos) with
+    | Some r => Some (map (fun m => (m, per)) (sr_minors r))
+    | None => None
+    end
+  else default_allocate t false v per desired desired.
+
 Inductive alloc_result :=
 | ASkip | AFail (code : Z) | ADone (da : dallocs).
 
@@ -471,6 +520,22 @@ Definition allocate (ls : list ledger) (infos : list devinfo) (rq : rawreq) : al
       | None => AFail c_error
       | Some g => ADone (g :: tl da)
       end.
+
+(* PreFilter, RemovePod for every victim, Filter: only the verdict is produced *)
+Definition preempt_verdict (ls : list ledger) (infos : list devinfo) (rq : rawreq) (victims : list Z) : Z :=
+  let reqs := map (treq_of rq) type_ids in
+  if existsb is_invalid reqs then c_unresolvable
+  else if negb (existsb is_req reqs) then c_skip
+  else if existsb (fun t => is_req (treq_of rq t) && dis_empty (total (ledger_of ls t))) type_ids
+       then c_unresolvable
+  else if existsb (fun t => match treq_of rq t with
+                            | TReq per count sh =>
+                                match alloc_type_on ls infos t per count sh
+                                        (preempt_of (ledger_of ls t) victims) with
+                                | None => true | Some _ => false end
+                            | _ => false end) type_ids
+       then c_unsched
+  else c_ok.
 
 (* ------------------------------------------------------------------ state and steps *)
 Record state := mkState {
@@ -502,7 +567,8 @@ Inductive op :=
 | OForeignAdd (p : Z) (al : list (nat * alloc))
 | ODeviceDelete
 | OPodUpdate (p : Z) (al : list (nat * alloc))
-| OPodTerminated (p : Z).
+| OPodTerminated (p : Z)
+| OPreemptFilter (p : Z) (rq : rawreq) (victims : list Z).
 
 Definition is_schedule_op (o : op) : bool := match o with OSchedule _ _ => true | _ => false end.
 
@@ -566,6 +632,8 @@ Definition step (s : state) (o : op) : state * opout :=
           (mkState (cache_update true (ledgers s) p da) (infos s)
                    (set_key p (da, false) (envrec s)) (envlast s), out_code 0)
       end
+  | OPreemptFilter p rq victims =>
+      (s, out_code (preempt_verdict (ledgers s) (infos s) rq victims))
   | OPodUpdate p al =>
       match lookup p (envrec s) with
       | None => (s, out_code (-1))
